@@ -56,6 +56,15 @@ def vecSplit (xs : List Val) (n : Nat) : List Part :=
 
 def vecSource (xs : List Val) : Node Part := .source xs xs.length (vecSplit xs)
 
+/-- A streamed file source (`read_jsonl_streaming` / `read_csv_streaming`, helpers/jsonl.rs + io/jsonl.rs
+    `build_jsonl_shards`): `len` = number of lines, the sequential view (`clone_any`) reads all of them,
+    `split` IGNORES the requested partition count and returns one part per shard of
+    `lines_per_shard.max(1)` lines — zero parts for an empty file. (The file layer itself is C09.) -/
+def fileSplit (xs : List Val) (per : Nat) : Nat → List Part :=
+  fun _ => chunksOf (max per 1) xs.length xs
+
+def fileSource (xs : List Val) (per : Nat) : Node Part := .source xs xs.length (fileSplit xs per)
+
 /-! ## insertion-ordered association lists (the model of `HashMap`) -/
 
 /-- `entry(k).or_insert_with(init)` followed by `f` on the entry -/
